@@ -136,6 +136,29 @@ static void case_random(vh_rng* r, long index) {
         /* absent: the string must be left as it was (the exception kind is C12's business) */
         vh_count("rem_absent");
       }
+    } else if (vh_chance(r, 25)) {
+      /* formatted write of a String argument through %$: its text in quotes, every special character as its
+         two-character escape, and the position advanced by exactly what was written */
+      static const char SPECIAL[] = "\a\b\f\n\r\t\v\\\'\"";      /* bell .. double quote (a question mark is written as it is) */
+      static const char* ESC[] = { "\\a", "\\b", "\\f", "\\n", "\\r", "\\t", "\\v", "\\\\", "\\'", "\\\"" };
+      size_t p = vh_below(r, n + 1);
+      char raw[24], shown[80]; size_t rl = 1 + vh_below(r, 8), so = 0;
+      shown[so++] = '"';
+      for (size_t i = 0; i < rl; i++) {
+        if (vh_chance(r, 45)) { int q = (int)vh_below(r, 10); raw[i] = SPECIAL[q]; so += (size_t)snprintf(shown + so, sizeof shown - so, "%s", ESC[q]); }
+        else { raw[i] = (char)('a' + vh_below(r, 26)); shown[so++] = raw[i]; }
+      }
+      raw[rl] = 0; shown[so++] = '"'; shown[so] = 0;
+      char tail[200]; snprintf(tail, sizeof tail, "[%s]!", shown);
+      snprintf(opd, sizeof opd, "print_to(pos=%zu, \"[%%$]!\", a String of %zu characters with escapes)", p, rl);
+      vh_op("%s", opd);
+      int ret = -1;
+      VH_CATCH(ret = print_to(s, (int)p, "[%$]!", $S(raw)), exc);
+      if (exc) { vh_violation("C16:op:print_to-raised", "%s raised %s", opd, vh_exc_name(exc)); continue; }
+      ref_[p] = 0; strcat(ref_, tail);
+      vh_eval();
+      if (ret != (int)(p + strlen(tail))) { vh_violation("C16:op:print_to-position", "%s returned %d, expected %zu", opd, ret, p + strlen(tail)); }
+      vh_count("formatted_writes_of_a_shown_string");
     } else {
       /* formatted write at a position inside the string */
       size_t p = vh_below(r, n + 1);
